@@ -11,7 +11,7 @@ CHECKS = {
    text="Every committed state of every recorded execution of the real director (generated projects, edit histories, random schedules, conflict-heavy plans) is checked by TLC against the TLA+ well-formedness invariant and the file/step transition relations; internal (non-usage) errors on any request are violations.",
    note=TRACE_NOTE),
  "C10": dict(engine="buildlayer", category="model_checking", design_ref="§8 C10",
-   technique="TLA+ trace validation (TLC): Eligible/SafeDef/ReadyDef/ImpliedNeedDef definitions vs cached columns at every dispatch decision and phase end + SchedCache.tla (operational model of the incremental maintenance of _safe/_safe_ignoring_hold/_implied_need/_tail_time: exhaustive model check, finds F1 and F2 in their pre-fix variants; action sequences replayed into the real Workflow + Scheduler, Layer G)",
+   technique="TLA+ trace validation (TLC): Eligible/SafeDef/ReadyDef/ImpliedNeedDef definitions vs cached columns at every dispatch decision and phase end + SchedCache.tla (operational model of the incremental maintenance of _safe/_safe_ignoring_hold/_implied_need/_tail_time: exhaustive model check, finds F1 and F2 in their pre-fix variants; action sequences replayed into the real Workflow + Scheduler, Layer G) + Defer.tla (operational model of amended inputs, deferral, wake-up and the defer cap: model checked incl. liveness under fairness, replayed into the real Workflow, Layer G)",
    text="At every dispatch decision of recorded executions TLC re-derives eligibility and all cached scheduling attributes from their TLA+ definitions and compares them with what the code used; at every phase end no eligible step may remain; defer cap and termination (no hang) are monitored.",
    note=TRACE_NOTE),
  "C12": dict(engine="buildlayer", category="model_checking", design_ref="§8 C12",
@@ -27,7 +27,7 @@ CHECKS = {
    text="At every phase end of recorded executions (failing steps, missing inputs, unsatisfiable resources, deferrals, keep-going, drains) TLC recomputes the failed/pending bits and the pending partition from the committed graph and compares them with what the director reported.",
    note=TRACE_NOTE),
  "C03": dict(engine="buildlayer", category="model_checking", design_ref="§8 C03",
-   technique="TLA+ trace validation (TLC) of command start / read / amend / completion events against input availability and finality monitors",
+   technique="TLA+ trace validation (TLC) of command start / read / amend / completion events against input availability and finality monitors + Defer.tla (operational model of amended inputs, deferral, wake-up and the defer cap: model checked incl. liveness under fairness, replayed into the real Workflow, Layer G)",
    text="For every command start of recorded executions TLC checks that every declared input was built or confirmed; amend/defer and changed-underneath clauses are monitored on the same traces.",
    note=TRACE_NOTE),
  "C08": dict(engine="buildlayer", category="model_checking", design_ref="§8 C08",
@@ -58,7 +58,7 @@ CHECKS.update({
 
 CHECKS.update({
  "C02": dict(engine="schedules", category="model_checking", design_ref="§8 C02",
-   technique="TLA+ relational check (TLC, RelCheck.tla same_final): full graph rendering and outputs of the same project under different controlled schedules, job counts, resource limits, and resumed vs fresh; operational TLA+ model of the file/step state machine (FileStep.tla: ExternalCommute) model checked and replayed into the real Workflow",
+   technique="TLA+ relational check (TLC, RelCheck.tla same_final): full graph rendering and outputs of the same project under different controlled schedules, job counts, resource limits, and resumed vs fresh; operational TLA+ model of the file/step state machine (FileStep.tla: ExternalCommute) model checked and replayed into the real Workflow + Defer.tla (operational model of amended inputs, deferral, wake-up and the defer cap: model checked incl. liveness under fairness, replayed into the real Workflow, Layer G)",
    text="Each project is built from scratch under 6-12 controlled schedules (fifo/lifo/random release of every scheduling point, delay-rank 'slow step' schedules, jobs 1-4, resource limits) and resumed with nothing changed; TLC compares the full graph rendering (detached nodes, hash presence) and outputs of successful builds and the success/failed/pending class of all builds.",
    note=REL_NOTE + " Conflict error texts are compared by the graph-layer check, not here."),
  "C14": dict(engine="watch", category="model_checking", design_ref="§8 C14",
@@ -154,6 +154,7 @@ def main():
             {"name": "filestep", "path": "checks/filestep.py", "serves_properties": ["C02", "C05", "C14"], "kind_free_text": "FileStep.tla model check + replay of action sequences into the real Workflow (Layer G); library called by the C02, C05 and C14 checks"},
             {"name": "plans", "path": "checks/plans.py", "serves_properties": ["C01"], "kind_free_text": "Plans.tla model check (finds F17) + replay of plan/sub-plan ownership transfer into the real Workflow (Layer G); library called by the C01 check"},
             {"name": "schedcache", "path": "checks/schedcache.py", "serves_properties": ["C10", "C11", "C12"], "kind_free_text": "SchedCache.tla model check (cache = definition whenever nothing is flagged; finds F1 and F2 in their pre-fix variants) + replay of graph-modification sequences into the real Workflow + Scheduler (Layer G); library called by the C10, C11 and C12 checks"},
+            {"name": "defer", "path": "checks/defer.py", "serves_properties": ["C02", "C03", "C10"], "kind_free_text": "Defer.tla model check (NoLostWakeup, defer cap, Settles under fairness; finds the BUILT-only re-check variant) + replay of amend / declare / confirm / complete interleavings into the real Workflow (Layer G); library called by the C02, C03 and C10 checks"},
             {"name": "recycle", "path": "checks/recycle.py", "serves_properties": ["C01"], "kind_free_text": "Recycle.tla model check + replay of plan re-execution sequences into the real Workflow (Layer G); library called by the C01 check"},
         ],
         "checks": checks,
